@@ -34,7 +34,10 @@ def slices(tier):
         # transfer only pays off by sparing several ancestors at once
         return [("P4x3/core+4", spaces.shape_pairs(4, 3), core + [(2, 1, 2, 1, 1), (1, 1, 2, 0, 1), (0, 1, 6, 1, 1), (0, 1, 4, 1, 1)]),
                 ("P4x4cat/bighgt", [p for p in spaces.shape_pairs(4, 4, min_obj=4, min_sp=4)],
-                 [(0, 1, 8, 1, 1), (0, 2, 8, 1, 1), (0, 1, 1, 1, 1)])]   # + default costs: transfers nested under both root children
+                 [(0, 1, 8, 1, 1), (0, 2, 8, 1, 1), (0, 1, 1, 1, 1)]),   # + default costs: transfers nested under both root children
+                # deep species trees, a transfer twice as dear as a duplication or a loss: a speciation two levels above a
+                # placement that only a transfer makes cheap
+                ("P3x6/bighgt2", spaces.shape_pairs(3, 6, min_obj=3, min_sp=6), [(0, 1, 2, 1, 1)])]
     six = [(0, 1, 1, 1, 1), (1, 1, 1, 1, 1), (1, 3, 5, 2, 1), (0, 1, 1, 0, 1), (0, 1, dtl.INF, 1, 1), (2, 1, 0, 1, 1)]
     p54 = [p for p in spaces.shape_pairs(5, 4)]
     p36 = [p for p in spaces.shape_pairs(3, 6, min_sp=5)]
